@@ -289,6 +289,19 @@ func execSchema(h *vh.H, op string) string {
 		}
 		specs = append(specs, s)
 		h.Count("schema.kind." + s.Kind + map[bool]string{true: ".array", false: ""}[s.Arr] + map[bool]string{true: ".map", false: ""}[s.Map])
+		if s.Kind == "enum" {
+			explicit := len(s.EOpts) > 0 && s.enumShort(s.EOpts[0]) == "UNSPECIFIED"
+			form := map[bool]string{true: "explicit-zero", false: "implicit-zero"}[explicit]
+			switch {
+			case s.EODesc == nil:
+				form += ".no-option-desc"
+			case explicit && s.EODesc[0] != "":
+				form += ".zero-described"
+			default:
+				form += ".some-option-desc"
+			}
+			h.Count("schema.enum.decl." + form)
+		}
 		if s.Kind == "enum" && s.LR != nil && len(s.LR.DefaultFilters) > 0 {
 			h.Count("schema.enum.default-filters." + map[bool]string{true: "options", false: "not-options(inadmissible)"}[enumFiltersOK(s)])
 		}
